@@ -285,7 +285,7 @@ fn heads_of(p: &GenProgram) -> Vec<(String, usize)> {
 }
 
 fn run_both(ctx: &mut Ctx, c22: bool) {
-    let total = ctx.sz(200, 4000);
+    let total = ctx.sz(200, 1000);
     for k in ctx.cases(total) {
         let mut r = ctx.rng(k);
         let Some(case) = setup(ctx, &mut r, k) else { continue };
